@@ -6,8 +6,11 @@ import (
 	"errors"
 	"fmt"
 	"io"
+	"net"
 	"net/http"
+	"os"
 	"sync"
+	"syscall"
 	"time"
 )
 
@@ -19,6 +22,7 @@ type TargetSpec struct {
 	Chunks      []int  // read chunk sizes, cycled (empty = as asked)
 	Fail        string // "", connect, status, timeout, break, gzip_corrupt
 	FailOffset  int    // for break / gzip_corrupt: offset in the bytes on the wire
+	Reset       bool   // for break: the connection is reset (ECONNRESET) instead of closed early (unexpected EOF)
 	Status      int    // for Fail == status
 	// FailFirst > 0: only the first FailFirst requests served from this spec fail, later ones succeed
 	// (a target that is restarting, a stale keep-alive connection)
@@ -80,17 +84,22 @@ var ErrConnect = errors.New("dial tcp: connection refused (simulated target)")
 // ErrBroken is what net/http reports when a connection breaks off in the middle of a body
 var ErrBroken = fmt.Errorf("simulated target: body broke off: %w", io.ErrUnexpectedEOF)
 
+// ErrReset is what net/http reports from Body.Read when the target's connection is reset (RST)
+// in the middle of a body: a *net.OpError around ECONNRESET ("read tcp ...: read: connection reset by peer")
+var ErrReset error = &net.OpError{Op: "read", Net: "tcp", Err: os.NewSyscallError("read", syscall.ECONNRESET)}
+
 type bodyReader struct {
-	data    []byte
-	off     int
-	chunks  []int
-	ci      int
-	breakAt int // -1 = never
-	stall   <-chan struct{}
-	stallE  func() error
-	pause   <-chan struct{}
-	pauseAt int
-	ctxDone <-chan struct{}
+	breakErr error
+	data     []byte
+	off      int
+	chunks   []int
+	ci       int
+	breakAt  int // -1 = never
+	stall    <-chan struct{}
+	stallE   func() error
+	pause    <-chan struct{}
+	pauseAt  int
+	ctxDone  <-chan struct{}
 }
 
 func (b *bodyReader) Read(p []byte) (int, error) {
@@ -106,6 +115,9 @@ func (b *bodyReader) Read(p []byte) (int, error) {
 		return 0, b.stallE()
 	}
 	if b.breakAt >= 0 && b.stall == nil && b.off >= b.breakAt {
+		if b.breakErr != nil {
+			return 0, b.breakErr
+		}
 		return 0, ErrBroken
 	}
 	if b.off >= len(b.data) {
@@ -224,6 +236,9 @@ func (t *Targets) RoundTrip(req *http.Request) (*http.Response, error) {
 		br.breakAt = spec.FailOffset
 		if br.breakAt > len(wire) {
 			br.breakAt = len(wire)
+		}
+		if spec.Reset {
+			br.breakErr = ErrReset
 		}
 	case "gzip_corrupt":
 		w2 := append([]byte(nil), wire...)
